@@ -217,7 +217,8 @@ def run_history(case: dict) -> list:
             names = step["targets"]
             pre = {n: observe(root, n, req_texts) for n in names}
             snap0 = tree_snapshot(root)
-            cmd = [*req_options(req), *flavour_options(fl), *[str(root / n) for n in names]]
+            # what is named on the command line may be directories (with --recursive) while `names` are the files observed
+            cmd = [*req_options(req), *flavour_options(fl), *[str(root / n) for n in step.get("cli_targets", names)]]
             r = core.run_reuse(["--root", str(root), "annotate", *cmd])
             snap1 = tree_snapshot(root)
             post = {n: observe(root, n, req_texts) for n in names}
